@@ -168,7 +168,7 @@ def main(ctx):
     ctx.rule = ("complete product: model {W->LN, EW->EW, LN x GG independent} x n x sample seed x {AND, OR} x alpha in "
                 "{1e-3,.01,.05,.2} x deg_step in {1,3,7,15,30} x allowed_error in {.005,.01,.05,.2} x (lowest,highest) "
                 "theta for OR; each contour constructed twice under the same global seed. evaluations = contours (pairs); "
-                "plus zero-inflated samples and every n in 200..300 for one model; non-trivial = contours that did not emit the 'required precision' warning (those are exempt by the "
+                "plus zero-inflated samples, every n in 200..300 for one model, and an OR ray-angle grid lowest {0,5,10,15,20,30} x highest {45..90} x step {1,2.5,3,5,7.5,15}; non-trivial = contours that did not emit the 'required precision' warning (those are exempt by the "
                 "property).")
     ctx.assumptions = ["the 'required precision' UserWarning exempts the whole contour (it cannot be attributed to a ray)",
                        "exceedance recomputed with strict > on the supplied sample (also for zero-inflated samples, where a third of one variable is exactly 0 and ties with the axis points of the 0 degree ray)"]
@@ -194,6 +194,13 @@ def main(ctx):
             for n in (600, 20000):
                 cases.append({"model": "w_ln", "n": n, "sample_seed": 11, "kinds": [kind], "alphas": [0.01, 0.05, 0.2], "steps": [5, 15, 30],
                               "aes": [0.05, 0.2], "lohis": [lohis[3], lohis[0]], "run_seed": ctx.seed, "zero_inflated": zi})
+    # OR ray angles: every (lowest, highest, step) of a grid - the number of rays and the exclusive end are float-sensitive
+    for lo in (0, 5, 10, 15, 20, 30):
+        his = [hi for hi in (45, 50, 60, 75, 80, 85, 90) if hi > lo + 10]
+        cases.append({"model": "ln_gg_indep", "n": 1000, "sample_seed": 17, "kinds": ["or"], "alphas": [0.05], "steps": [1, 2.5, 3, 5, 7.5, 15],
+                      "aes": [0.05], "lohis": [[lo, hi] for hi in his], "run_seed": ctx.seed})
+        cases.append({"model": "w_ln", "n": 1000, "sample_seed": 17, "kinds": ["or"], "alphas": [0.2], "steps": [1, 5, 7.5],
+                      "aes": [0.2], "lohis": [[lo, hi] for hi in his], "run_seed": ctx.seed})
     # every sample size 200..300 (count bookkeeping like int(alpha*n) only misbehaves for some n)
     for n in range(200, 301):
         for kind in ("and", "or"):
